@@ -271,8 +271,17 @@ class Observer:
                 "nhandled": sum(1 for t, _ in log if t == "handle")}
 
 
+def _parses(hexbody):
+    try:
+        _orig_loads(bytes.fromhex(hexbody))
+        return True
+    except (ValueError, RecursionError):
+        return False
+
+
 def bodies_match(got, want):
-    return len(got) == len(want) and all(g == w or g == "?" for g, w in zip(got, want))
+    """"?" (reported without a visible parse) stands for one body that does not parse as JSON."""
+    return len(got) == len(want) and all(g == w or (g == "?" and not _parses(w)) for g, w in zip(got, want))
 
 
 def canon_json(x):
@@ -575,6 +584,9 @@ def body_classes(rng, big):
         "utf8-2": note({"s": "café üß" * rng.randrange(1, 4)}),
         "utf8-3": note({"s": "€中文 " * rng.randrange(1, 4)}),
         "utf8-4": note({"s": "\U0001F60B\U00010000\U0010FFFF" * rng.randrange(1, 3)}),
+        # text that is not NFC-normalised must arrive as sent: decomposed accent, conjoining Hangul jamo,
+        # a compatibility singleton (ANGSTROM SIGN), a composition-excluded musical symbol; U+FB01 ligature (NFKC)
+        "non-nfc": note({"s": "e\u0301 \u1100\u1161\u11a8 \u212b \U0001D15E \ufb01 " * rng.randrange(1, 3)}),
         "crlfcrlf-json": b'{"jsonrpc":"2.0",\r\n\r\n"method":"t/x",\r\n"params":[1,\r\n\r\n2]}',
         "header-in-string": note({"s": "Content-Length: 5\r\n\r\n{}"}),
         # opaque bodies (not JSON): the loop must still take exactly Content-Length bytes
@@ -634,7 +646,7 @@ class C02(core.Property):
                    "C02", "C02_reference_agrees", "C02_nonvacuous", "C02_outside_limit"]
     coq_targets = ["Props/C02.vo", "Extract/ExtractC02.vo"]
     rule = ("frames cases: 1-6 bodies from the classes {2 B, ASCII, 2/3/4-byte UTF-8, CRLFCRLF inside JSON and raw, "
-            "header text in a JSON string and raw, leading LF, whitespace-only, binary, invalid UTF-8, NUL, 64 KiB+1 "
+            "non-NFC text (decomposed accents, Hangul jamo, U+212B, U+1D15E), header text in a JSON string and raw, leading LF, whitespace-only, binary, invalid UTF-8, NUL, 64 KiB+1 "
             "(thorough: 200 KiB)} x layouts {CL; CL,CT v; CT v,CL} x partitions (every split point and 1-byte chunks "
             "for short streams, random partitions biased to header / CRLFCRLF / multi-byte offsets, empty chunks) x "
             "3 real loops, with and without QUIET PERIODS between the chunks (the async loops run on a private event loop whose "
